@@ -88,7 +88,20 @@ def run_one(dst: str, h: dict, workdir: str, solver: str, timeout: int) -> HResu
     t0 = time.time()
 
     def sh(cmd, to=600):
-        return subprocess.run(cmd, cwd=dst, stdout=subprocess.PIPE, stderr=subprocess.STDOUT, text=True, errors="replace", timeout=to)
+        # own process group: on timeout the solver child (z3) must die with cbmc
+        p = subprocess.Popen(cmd, cwd=dst, stdout=subprocess.PIPE, stderr=subprocess.STDOUT, text=True, errors="replace",
+                             start_new_session=True)
+        try:
+            out, _ = p.communicate(timeout=to)
+        except subprocess.TimeoutExpired:
+            import signal
+            try:
+                os.killpg(p.pid, signal.SIGKILL)
+            except ProcessLookupError:
+                pass
+            p.communicate()
+            raise
+        return subprocess.CompletedProcess(cmd, p.returncode, out, None)
     try:
         steps = [
             [f"{KBIN}/goto-cc", h["goto_file"], KLIB, "-o", w],
